@@ -58,6 +58,8 @@ func corporaFor(prop, tier string) []*Case {
 		add(CorpusTypes(seed, tier))
 	case "C16":
 		add(CorpusFlags(seed, tier))
+		add(CorpusRaw(seed, tier))
+		add(sample(CorpusTypes(seed, tier), 3))
 	case "C20":
 		add(CorpusRaw(seed, tier))
 		add(CorpusMulti(seed, tier))
@@ -439,4 +441,16 @@ func autoNames(c *Case, p *Prediction) {
 			}
 		}
 	}
+}
+
+func sample(l []*Case, every int) []*Case {
+	var out []*Case
+	for i, c := range l {
+		if i%every == 0 {
+			c.RunFmts = true
+			c.Judge = append(c.Judge, "C16")
+			out = append(out, c)
+		}
+	}
+	return out
 }
